@@ -4,7 +4,10 @@ use crate::data::{
 };
 
 use std::collections::VecDeque;
+#[cfg(not(kiki_verif))]
 use std::collections::{HashMap, HashSet};
+#[cfg(kiki_verif)]
+use crate::verif_collections::{HashMap, HashSet};
 
 use crate::pipeline::normalize_machine::normalize_machine;
 
